@@ -2,7 +2,7 @@
 (MK1, MK2) live in rules_pai.py because they need the protocol abstract interpreter."""
 import ast
 
-from .core import AnalysisError, iter_nodes, norm
+from .core import AnalysisError, iter_nodes, norm, cnorm, cnorm_text
 from . import astq
 from .astq import (parents, ancestors, calls_named, mentions_attr, mentions_name, definitions, reaching_definitions,
                    enclosing_loops, enclosing_ifs, const_int, attr_tail, resolve_value)
@@ -126,42 +126,59 @@ def _receivers_forms(fn, name, allowed_sources):
     return bad
 
 
+def _flat_values(fn, e, use, pm, depth=0):
+    """Value expressions a payload name can hold: reaching plain definitions, conditional expressions split."""
+    if isinstance(e, ast.IfExp):
+        return _flat_values(fn, e.body, use, pm, depth) + _flat_values(fn, e.orelse, use, pm, depth)
+    if isinstance(e, ast.Name) and depth < 4:
+        from .astq import reaching_definitions
+        ds = reaching_definitions(fn.node, e.id, use, pm)
+        if ds and all(how == 'assign' and v is not None for _, v, how in ds):
+            out = []
+            for st, v, how in ds:
+                if any(isinstance(x, ast.Name) and x.id == e.id for x in ast.walk(v)):
+                    return [e]
+                out += _flat_values(fn, v, st, pm, depth + 1)
+            return out
+    return [e]
+
+
 def rule_MK4(ctx, rep):
     """destination provenance: messages of output/transfer go only to parties derived from the receivers
-    argument(s); the non-receiver branch yields None and recombines nothing."""
+    argument(s); the non-receiver branch yields None and recombines nothing.  Destinations are read off the
+    routing summaries (routes.py), so the spelling of the loops does not matter."""
+    from . import rules_rt
     model = ctx.model
-    fo = model.func(RT + 'output')
+    fo, evs, cases = rules_rt._summary(ctx, 'output')
     pm = parents(fo.node)
-    sends = calls_named(fo.node, '_send_message')
-    if len(sends) != 1:
+    sends = [e for e in evs if e.kind == 'send']
+    if not sends:
         raise AnalysisError('MK4: send site in output not found')
-    s = sends[0]
-    lp = [l for l in enclosing_loops(s, pm, stop=fo.node) if isinstance(l, ast.For)]
-    if lp and norm(lp[0].iter) == 'receivers' and norm(s.args[0]) == norm(lp[0].target):
-        bad = _receivers_forms(fo, 'receivers', [])
-        if not bad:
-            rep.ok('MK4', fo, s, 'a share is sent only to members of the receivers argument (default: all parties, only when None)')
+    for e in sends:
+        at = cases[sorted(cases)[0]][id(e)]
+        if ('In', 'R', 'receivers') in at:
+            bad = _receivers_forms(fo, 'receivers', [])
+            if not bad:
+                rep.ok('MK4', fo, e.node, 'a share is sent only to members of the receivers argument (default: all parties, only when None)')
+            else:
+                rep.bad('MK4', fo, bad[0], 'the receivers list used for sending is redefined from something other than the receivers argument')
         else:
-            rep.bad('MK4', fo, bad[0], 'the receivers list used for sending is redefined from something other than the receivers argument')
-    else:
-        rep.bad('MK4', fo, s, f'the destination {norm(s.args[0])} of a share in output does not range over the receivers argument: '
-                'parties outside the receivers get a message')
-    # payload is the party's own share vector (marshalled)
-    pay = s.args[1]
-    pv = resolve_value(fo.node, pay) if isinstance(pay, ast.Name) else pay
-    vals = [v for _, v, _ in definitions(fo.node, norm(pay))] if isinstance(pay, ast.Name) else [pay]
-    if all(v is None or norm(v) in ('None', 'marshal(x)') for v in vals) and any(v is not None and norm(v) == 'marshal(x)' for v in vals):
-        rep.ok('MK4', fo, pay, 'payload is this party\'s own share')
-    else:
-        rep.bad('MK4', fo, s, 'payload of the output message is not marshal(own share)')
+            rep.bad('MK4', fo, e.node, f'the destination {norm(e.peer_raw)} of a share in output does not range over the receivers argument: '
+                    'parties outside the receivers get a message')
+        # payload is the party's own share vector (marshalled)
+        vals = [norm(v) for v in _flat_values(fo, e.payload, e.node, pm)]
+        if all(v in ('None', 'marshal(x)') for v in vals) and 'marshal(x)' in vals:
+            rep.ok('MK4', fo, e.payload, 'payload is this party\'s own share')
+        else:
+            rep.bad('MK4', fo, e.node, 'payload of the output message is not marshal(own share)')
     # receive/recombine only under `self.pid in receivers`; else-branch yields None
     rec = [c for c in iter_nodes(fo.node) if isinstance(c, ast.Call) and isinstance(c.func, ast.Name) and c.func.id == 'recombine']
-    recvs = calls_named(fo.node, '_receive_message')
+    recvs = [e for e in evs if e.kind == 'recv']
     gate = None
     for i, br in enclosing_ifs(rec[0], pm, stop=fo.node) if rec else []:
-        if norm(i.test) == 'self.pid in receivers' and br == 'body':
+        if cnorm(i.test) == cnorm_text('self.pid in receivers') and br == 'body':
             gate = i
-    if gate is not None and all(any(g is gate and br == 'body' for g, br in enclosing_ifs(r, pm, stop=fo.node)) for r in recvs):
+    if gate is not None and all(('In', 'R', 'receivers') in cases[sorted(cases)[0]][id(r)] for r in recvs):
         rep.ok('MK4', fo, gate.test, 'shares are collected and recombined only by receivers')
         els = gate.orelse
         good = len(els) == 1 and isinstance(els[0], ast.Assign) and isinstance(els[0].value, ast.BinOp) and norm(els[0].value.left) == '[None]'
@@ -172,74 +189,89 @@ def rule_MK4(ctx, rep):
     else:
         rep.bad('MK4', fo, rec[0] if rec else fo.qualname, 'recombination in output is not restricted to `self.pid in receivers`', fo.node)
     # transfer
-    ft = model.func(RT + 'transfer')
+    ft, evs, cases = rules_rt._summary(ctx, 'transfer')
     pmt = parents(ft.node)
-    sends = calls_named(ft.node, '_send_message')
-    s = sends[0]
-    lp = [l for l in enclosing_loops(s, pmt, stop=ft.node) if isinstance(l, ast.For)]
-    if lp and norm(lp[0].iter) == 'my_receivers' and norm(s.args[0]) == norm(lp[0].target):
-        srcs = set()
-        for st, v, how in definitions(ft.node, 'my_receivers'):
-            if v is None:
-                srcs.add('?')
-            else:
-                srcs |= {x.id for x in ast.walk(v) if isinstance(x, ast.Name)} - {'list', 'self', 'a', 'b'}
-        if srcs <= {'receivers', 'senders', 'sender_receivers'}:
+    sends = [e for e in evs if e.kind == 'send']
+    if not sends:
+        raise AnalysisError('MK4: send site in transfer not found')
+    for e in sends:
+        foreign = []
+        for k in sorted(cases):
+            for a in cases[k][id(e)]:
+                if a[0] == 'In' and a[2] in ('receivers', 'senders'):
+                    continue
+                if a[0] in ('Arc', 'Arc-reversed') and a[1] == 'sender_receivers':
+                    continue
+                if a[0] == 'Neq':
+                    continue
+                foreign.append(a)
+        if not foreign:
             badr = _receivers_forms(ft, 'receivers', [])
             if not badr:
-                rep.ok('MK4', ft, s, 'objects are sent only along the designated arcs (receivers / sender_receivers arguments)')
+                rep.ok('MK4', ft, e.node, 'objects are sent only along the designated arcs (receivers / sender_receivers arguments)')
             else:
                 rep.bad('MK4', ft, badr[0], 'receivers is redefined from something other than the argument')
         else:
-            rep.bad('MK4', ft, s, f'my_receivers depends on {sorted(srcs)}: destinations not derived from the routing arguments only')
-    else:
-        rep.bad('MK4', ft, s, f'the destination {norm(s.args[0])} in transfer does not range over my_receivers')
-    pay = s.args[1]
-    vals = [v for _, v, _ in definitions(ft.node, norm(pay))] if isinstance(pay, ast.Name) else [pay]
-    if all(v is None or norm(v) in ('None', 'pickle.dumps(obj)') for v in vals):
-        rep.ok('MK4', ft, pay, 'payload is the pickled object of this sender')
-    else:
-        rep.bad('MK4', ft, s, 'payload of transfer is not pickle.dumps(obj)')
+            rep.bad('MK4', ft, e.node, f'the destinations of transfer depend on {sorted(set(map(repr, foreign)))[:3]}: not derived from the routing arguments only')
+        vals = [norm(v) for v in _flat_values(ft, e.payload, e.node, pmt)]
+        if all(v in ('None', 'pickle.dumps(obj)') for v in vals) and 'pickle.dumps(obj)' in vals:
+            rep.ok('MK4', ft, e.payload, 'payload is the pickled object of this sender')
+        else:
+            rep.bad('MK4', ft, e.node, 'payload of transfer is not pickle.dumps(obj)')
 
 
 # ---------------------------------------------------------------------------------- NR1
 def rule_NR1(ctx, rep):
     """non-receivers of a transfer obtain None: the result list (empty for a party that receives
     nothing) is never indexed without a guard."""
-    model = ctx.model
-    ft = model.func(RT + 'transfer')
+    from . import rules_rt
+    ft, evs, cases = rules_rt._summary(ctx, 'transfer')
     pm = parents(ft.node)
-    # result list is sized by my_senders, which is [] for non-receivers
-    ms = [v for _, v, _ in definitions(ft.node, 'my_senders')]
-    may_be_empty = any(isinstance(v, ast.IfExp) and norm(v.orelse) == '[]' for v in ms if v is not None)
-    if not may_be_empty:
-        raise AnalysisError('NR1: my_senders no longer has the `... else []` form; rule needs re-confirmation')
-    sized = [s for s in iter_nodes(ft.node) if isinstance(s, ast.Assign) and isinstance(s.value, ast.BinOp) and norm(s.value.right) == 'len(my_senders)']
-    if len(sized) != 1:
-        raise AnalysisError('NR1: result list sized len(my_senders) not found')
-    res = norm(sized[0].targets[0])
+    recvs = [e for e in evs if e.kind == 'recv' and e.slot is not None and e.slot[1]]
+    if not recvs:
+        raise AnalysisError('NR1: the result list of transfer (the list the received values are stored in) was not found')
+    # the list of parties received from is empty for a non-receiver in the bipartite form
+    empties = False
+    for k in cases:
+        for e in recvs:
+            if any(a[0] == 'In' and a[1] == 'R' for a in cases[k][id(e)]):
+                empties = True
+    if not empties:
+        raise AnalysisError('NR1: no case of transfer restricts receiving to the members of a receivers list; rule needs re-confirmation')
+    res = {e.slot[1] for e in recvs}
+    # names derived from the result list (gathered, unpickled, ...)
+    changed = True
+    while changed:
+        changed = False
+        for st in iter_nodes(ft.node):
+            if isinstance(st, ast.Assign) and len(st.targets) == 1 and isinstance(st.targets[0], ast.Name) and st.targets[0].id not in res:
+                if any(isinstance(x, ast.Name) and x.id in res for x in ast.walk(st.value)) and not isinstance(st.value, ast.Subscript):
+                    res.add(st.targets[0].id)
+                    changed = True
+    lists = res | {norm(b.src) for e in recvs for b in e.binders if b.kind in ('enum', 'iter') and b.src is not None}
+
+    def is_guard(t):
+        t = norm(t)
+        return any(t == r or f'len({r})' in t for r in lists) or 'self.pid in receivers' in t
     n = 0
     for sub in iter_nodes(ft.node):
-        if isinstance(sub, ast.Subscript) and isinstance(sub.ctx, ast.Load) and norm(sub.value) == res and const_int(sub.slice) is not None:
+        if isinstance(sub, ast.Subscript) and isinstance(sub.ctx, ast.Load) and isinstance(sub.value, ast.Name) and sub.value.id in res \
+                and const_int(sub.slice) is not None:
             n += 1
             st = astq.enclosing_stmt(sub, pm)
             guarded = False
-            # guarded by a truthiness / length / membership test
             for i, br in enclosing_ifs(sub, pm, stop=ft.node):
-                t = norm(i.test)
-                if br == 'body' and (t == res or f'len({res})' in t or 'self.pid in receivers' in t or 'my_senders' in t):
+                if br == 'body' and is_guard(i.test):
                     guarded = True
             for a in ancestors(sub, pm):
-                if isinstance(a, ast.IfExp) and any(x is sub for x in ast.walk(a.body)):
-                    t = norm(a.test)
-                    if t == res or f'len({res})' in t or 'my_senders' in t or 'self.pid in receivers' in t:
-                        guarded = True
-                if isinstance(a, ast.BoolOp) and isinstance(a.op, ast.And) and norm(a.values[0]) in (res, 'my_senders'):
+                if isinstance(a, ast.IfExp) and any(x is sub for x in ast.walk(a.body)) and is_guard(a.test):
+                    guarded = True
+                if isinstance(a, ast.BoolOp) and isinstance(a.op, ast.And) and norm(a.values[0]) in lists:
                     guarded = True
             if guarded:
                 rep.ok('NR1', ft, st, 'indexing of the result list is guarded against the empty (non-receiver) case')
             else:
-                rep.bad('NR1', ft, st, f'{norm(sub)} is evaluated although {res} is empty for a party outside the receivers: IndexError instead of None '
+                rep.bad('NR1', ft, st, f'{norm(sub)} is evaluated although {norm(sub.value)} is empty for a party outside the receivers: IndexError instead of None '
                         '(transfer with an int sender and a receiver subset)')
     if n == 0:
         rep.ok('NR1', ft, 'no constant indexing of the result list', '', ft.node)
